@@ -33,16 +33,20 @@ class CCompositionMCNP:
         material with id of isotope and its abondance
         '''
         self.materialCompositionParameters = []
+        # the equals sign of a keyword entry is optional and may be
+        # surrounded by blanks: NLIB=70c, NLIB = 70c and NLIB 70c are the same
+        params = ' '.join(l_materialCompositionParameters).replace('=', ' ')
+        params = params.split()
         i = 0
-        while i < len(l_materialCompositionParameters):
-            isotope = l_materialCompositionParameters[i]
-            if '=' in isotope:
-                # this is a keyword, skip it
-                i += 1
+        while i < len(params):
+            isotope = params[i]
+            if isotope[0].isalpha():
+                # this is a keyword, skip it and its value
+                i += 2
                 continue
             if "." in isotope:
                 isotope = isotope.split(".")[0]
-            fractionIsotope = l_materialCompositionParameters[i + 1]
+            fractionIsotope = params[i + 1]
             self.materialCompositionParameters.append((isotope,
                                                        fractionIsotope))
             i += 2
